@@ -19,8 +19,11 @@ FrontOf(s)  == SubSeq(s, 1, Len(s) - 1)
 Rep(x, n)   == [i \in 1..n |-> x]
 RangeOf(s)  == {s[i] : i \in 1..Len(s)}
 
+(* concatenation of a sequence of sequences (divide and conquer: shallow recursion) *)
 RECURSIVE Flat(_)
-Flat(ss) == IF Len(ss) = 0 THEN <<>> ELSE Head(ss) \o Flat(Tail(ss))
+Flat(ss) == IF Len(ss) = 0 THEN <<>>
+            ELSE IF Len(ss) = 1 THEN ss[1]
+            ELSE LET h == Len(ss) \div 2 IN Flat(SubSeq(ss, 1, h)) \o Flat(SubSeq(ss, h + 1, Len(ss)))
 
 RECURSIVE StripLeading(_, _)
 StripLeading(s, z) == IF Len(s) > 0 /\ Head(s) = z THEN StripLeading(Tail(s), z) ELSE s
